@@ -201,7 +201,10 @@ func (s *keystore) worker() {
 				newKeys, err := s.put(op.ctx, op.keys)
 				op.response <- operationResponse{multihashes: newKeys, err: err}
 				if err != nil {
-					if size, err := refreshSize(op.ctx, s.ds); err == nil {
+					// The operation may have been applied in part. Recount what is
+					// stored - not with the operation's own context: a context that
+					// has ended is the most ordinary reason for the failure.
+					if size, err := refreshSize(context.WithoutCancel(op.ctx), s.ds); err == nil {
 						s.size = size
 					} else {
 						s.logger.Error("keystore: failed to refresh size after put: ", err)
@@ -220,7 +223,7 @@ func (s *keystore) worker() {
 				err := s.delete(op.ctx, op.keys)
 				op.response <- operationResponse{err: err}
 				if err != nil {
-					if size, err := refreshSize(op.ctx, s.ds); err == nil {
+					if size, err := refreshSize(context.WithoutCancel(op.ctx), s.ds); err == nil {
 						s.size = size
 					} else {
 						s.logger.Error("keystore: failed to refresh size after delete: ", err)
@@ -233,7 +236,7 @@ func (s *keystore) worker() {
 				if err == nil {
 					s.size = 0
 				} else {
-					if size, err := refreshSize(op.ctx, s.ds); err == nil {
+					if size, err := refreshSize(context.WithoutCancel(op.ctx), s.ds); err == nil {
 						s.size = size
 					} else {
 						s.logger.Error("keystore: failed to refresh size after empty: ", err)
